@@ -92,6 +92,13 @@ def run_single(ctx, rng, N):
             tol = 1e-6 if mag <= 1e3 else 1e-6 * mag  # cancellation error grows with the shift; scale-aware tolerance
             same_model(ctx, "C08:%s:shift" % cls, "%s(center=True, standardize=%s) under per-feature shifts of size %g" % (cls, std, mag), a, b,
                        dict(replay, shift=c, standardize=std), tol=min(tol, 1e-3))
+        # ---- a fully missing sample does not change what centring means
+        Xn = X.copy()
+        Xn[int(rng.integers(0, n))] = np.nan
+        cm = rng.standard_normal((nlat, nlon)) * 10.0
+        ctx.case(("shift-missing-sample", cls, n, nlat, nlon, i), nontrivial=True, tag="%s/shift/missing-sample" % cls)
+        same_model(ctx, "C08:%s:shift-with-missing-sample" % cls, "%s(center=True) under per-feature shifts, data with one fully missing sample" % cls,
+                   fitted(make, as_da(Xn), center=True), fitted(make, as_da(Xn + cm), center=True), dict(replay, shift=cm, missing_sample=True))
         # ---- positive affine rescaling (standardisation on)
         sc = 10.0 ** rng.uniform(-4, 4, size=(nlat, nlon))
         ctx.case(("affine", cls, n, nlat, nlon, i), nontrivial=True, tag="%s/affine" % cls, sample=dict(cls=cls, test="affine", shape=[n, nlat, nlon]))
